@@ -360,7 +360,7 @@ def check_region(ctx, case, ignore_known=False):
             lines += ["io write_gds l %s 199" % path, "io read_gds r %s 0 %s N" % (path, fl(1e-3))]
         else:
             lines += ["io write_oas l %s %s 6 0" % (path, fl(0)), "io read_oas r %s 0 %s" % (path, fl(1e-3))]
-        lines += ["hier get_flexpaths r.0 0 0 0 0 0 q"]
+        lines += ["hier get_flexpaths r.0 0 0 0 0 0 q", "dump lib r"]
     outs = ctx.run(lines, case)
 
     def fail(msg):
@@ -485,9 +485,26 @@ def check_region(ctx, case, ignore_known=False):
         res = [o for o in outs if isinstance(o, dict) and "result" in o and "err" not in o][0]["result"]
         if rd["err"] != 0:
             fail("re-loading the %s file failed with error %d" % (io, rd["err"]))
-        if len(res) != nel:
+        no_record = io == "oas" and any(e["end"] in (pm.E_ROUND, pm.E_SMOOTH, pm.E_FUNC) for e in case["els"])
+        if no_record and len(res) == 0:
+            # OASIS PATH records only have flush, half-width and explicit extensions: a simple path with another end type is
+            # saved as its outline, one polygon per element in element order; compared with the outline judged above
+            rpolys = [o for o in outs if isinstance(o, dict) and "lib" in o][0]["lib"]["cells"][0]["polygons"]
+            if len(rpolys) != len(top["result"]):
+                fail("oas: a simple path with %d outline polygons was saved as %d polygons and no PATH record" % (len(top["result"]), len(rpolys)))
+            for i, (a, b) in enumerate(zip(top["result"], rpolys)):
+                A = np.array(a["pts"], dtype=float)
+                B = np.array(b["pts"], dtype=float) / ks
+                bandp = 2 * tol * max(1.0, 1.0 / ks) + 3e-3 / ks
+                d1 = float(pm.boundary_distance(A, B).max())
+                d2 = float(pm.boundary_distance(B, A).max())
+                if a["tag"] != b["tag"] or d1 > bandp or d2 > bandp:
+                    fail("oas: outline %d saved for a simple path without PATH record is %.4g / %.4g away from to_polygons (allowed %.3g)" % (i, d1, d2, bandp))
+            labels.append("path_as_outline_oas")
+            res = None
+        elif len(res) != nel:
             fail("%s: %d paths re-loaded for %d elements of a simple path" % (io, len(res), nel))
-        for i, e in enumerate(case["els"]):
+        for i, e in enumerate(case["els"] if res is not None else []):
             if centres[i] is None:
                 continue
             got = res[i]
@@ -511,7 +528,8 @@ def check_region(ctx, case, ignore_known=False):
             d2 = float(pm.boundary_distance(C, np.vstack([sp, sp[::-1]])).max()) if len(sp) >= 2 else float("inf")
             if d1 > bandc or d2 > bandc:
                 fail("%s PATH record of element %d: its centre line is %.4g / %.4g away from C(u) (allowed %.3g)" % (io, i, d1, d2, bandc))
-        labels.append("path_record_" + io)
+        if res is not None:
+            labels.append("path_record_" + io)
     kinds = {c["k"] for c in case["calls"]}
     nt = judged_any and len(kinds) >= 2 and (any(c["w"] or c["o"] for c in case["calls"]) or any(e["o"] != 0 for e in case["els"]))
     ctx.stats.note(case, nt, labels + ["end_%d" % e["end"] for e in case["els"]])
